@@ -67,6 +67,11 @@ CHECKS = {
          'Every combination of protocol step {receive_tx, process_invoice_tx, owner finalize_tx, foreign finalize_tx} x cutoff class {0, 1, h-1, h, h+1, u64::MAX} relative to the height the wallet has observed x staleness of that observation x other pending transactions, and every combination of ttl_blocks {none,1,2,3,50} x blocks mined 0..4 x side {sender, recipient} x other pending transactions for refresh, is executed; oracle: refused iff cutoff != 0 and observed height >= cutoff, refusals change nothing, unexpired slates complete, refresh cancels exactly the expired pending transactions and releases their inputs.',
          'Cutoff is set directly on the slate handed to the step (a counterparty controls it).',
          'DESIGN.md §3 C17'),
+ 'C18': ('model_checking',
+         'exhaustive enumeration of reorganisation histories on a real forking chain with a chain-truth oracle',
+         'On a real grin chain a payment to wallet B is confirmed in block R; every case of the product fork depth {1,2(,3)} below R x blocks after R {1 (mined by B: orphaned reward), 0} x fork {without, with} the transaction x extra fork length x every sequence of up to three head flips (fork wins, original wins, fork wins) with an action {scan, full refresh, refresh, nothing} after each flip is executed with real side-branch blocks. After every scan / full refresh: if the kernel is not on the current chain the entry must be TxReverted and unconfirmed, its output neither Unspent nor Locked, amount_reverted = its value, total and spendable equal the chain truth for the seed (so orphaned rewards are not counted), and a send never selects the reverted or an orphaned output; when the reverted transaction is mined again an ordinary refresh must report it confirmed and spendable.',
+         'Full refresh = update_wallet_state(update_all = true). One receiving wallet, one payment.',
+         'DESIGN.md §3 C18'),
  'C19': ('model_checking',
          'exhaustive small-scope input enumeration of the real query path against a reference filter',
          'Every query of a stated finite space (all single fields, all pairs, full flag product, sort x order x limit x every single filter; thorough: all triples and pairs x sort/limit) is executed through owner::retrieve_txs on a real LMDB wallet holding two discriminating 11-entry, 3-account logs and compared with a reference filter written from the field documentation (MUST <= result <= MAY, order, limit-as-prefix). Exhaustive within that scope; nothing sampled.',
